@@ -5,6 +5,7 @@ import (
 	"fmt"
 	"net/http"
 	"net/http/httptest"
+	"sort"
 	"strconv"
 	"strings"
 	"sync/atomic"
@@ -76,6 +77,7 @@ func (e *Engine) startOp(i int) {
 	case OpReq:
 		rec := &ReqRec{Op: i, Key: op.CacheKey(), Method: op.Method, Host: op.Host, URI: op.URI, Addr: op.Addr,
 			ReqHeader: op.Header, Tag: op.Tag, ReturnSeq: -1, Epoch: e.epoch, ReleasedBy: -1}
+		rec.Idx = len(e.hist.Reqs)
 		e.hist.Reqs = append(e.hist.Reqs, rec)
 		t := e.newTask(fmt.Sprintf("c%d", i), "req", i, e.clientFn(op))
 		t.weight = e.drawWeight()
@@ -243,11 +245,7 @@ func (e *Engine) onUpArrive(t *Task) {
 	reqIdx := -1
 	if rec != nil {
 		key = rec.Key
-		for i, r := range e.hist.Reqs {
-			if r == rec {
-				reqIdx = i
-			}
-		}
+		reqIdx = rec.Idx
 	}
 	n := e.upCount[key]
 	e.upCount[key] = n + 1
@@ -432,6 +430,7 @@ func (e *Engine) completeStore(t *Task) {
 		s.Err = c.err.Error()
 	}
 	s.T = e.nowMs()
+	s.OutLen = len(c.out)
 	s.DoneSeq = e.ev("store-done", t.Name, fmt.Sprintf("#%d %s -> len=%d err=%q", s.Serial, c.Op, len(c.out), s.Err))
 	if s.Fault != "" {
 		k := s.Fault
@@ -446,6 +445,11 @@ func (e *Engine) completeStore(t *Task) {
 // applyStore executes a store call against the disk, with an optional fault.
 func (e *Engine) applyStore(c *StoreCall, fault string, serial int) {
 	now := e.nowMs()
+	disk := e.disks[c.URL]
+	if disk == nil {
+		disk = newDisk()
+		e.disks[c.URL] = disk
+	}
 	name, arg := fault, 0
 	if i := strings.IndexByte(fault, ':'); i > 0 {
 		name = fault[:i]
@@ -461,7 +465,7 @@ func (e *Engine) applyStore(c *StoreCall, fault string, serial int) {
 			c.err = pikestore.ErrNotFound
 			return
 		}
-		r, ok := e.disk.lookup(c.Key)
+		r, ok := disk.lookup(c.Key)
 		if ok && r.expireMs != 0 {
 			switch e.plan.StoreTTL {
 			case "never":
@@ -517,16 +521,16 @@ func (e *Engine) applyStore(c *StoreCall, fault string, serial int) {
 				rec.expireMs = now
 			}
 		}
-		e.disk.pending = append(e.disk.pending, pendingWrite{key: c.Key, rec: rec})
+		disk.pending = append(disk.pending, pendingWrite{key: c.Key, rec: rec})
 		if e.wrng.IntN(3) == 0 {
-			e.disk.sync() // the store happened to flush
+			disk.sync() // the store happened to flush
 		}
 	case "delete":
 		if name == "err" {
 			c.err = errSimStore
 			return
 		}
-		e.disk.pending = append(e.disk.pending, pendingWrite{key: c.Key, rec: diskRec{del: true}})
+		disk.pending = append(disk.pending, pendingWrite{key: c.Key, rec: diskRec{del: true}})
 	}
 }
 
@@ -550,6 +554,9 @@ func (e *Engine) onTaskDone(t *Task) {
 	case "purge", "reload":
 		for _, m := range e.hist.Misc {
 			if m.Task == t.ID && m.ReturnSeq < 0 {
+				if m.Kind == "purge" {
+					e.checkDiskAfterPurge(t, m)
+				}
 				m.ReturnT = e.nowMs()
 				txt := ""
 				if panicked {
@@ -585,7 +592,7 @@ func resultSummary(r *ClientResult) string {
 func (e *Engine) crashRestart(i int, op *Op) {
 	m := &MiscRec{Kind: op.Kind, Op: i}
 	e.hist.Misc = append(e.hist.Misc, m)
-	m.InvokeSeq = e.ev(op.Kind, "", fmt.Sprintf("tasks alive=%d pending-writes=%d", len(e.liveTasks()), len(e.disk.pending)))
+	m.InvokeSeq = e.ev(op.Kind, "", fmt.Sprintf("tasks alive=%d", len(e.liveTasks())))
 	m.InvokeT = e.nowMs()
 	// every goroutine of the old process is gone
 	for _, t := range e.liveTasks() {
@@ -605,33 +612,50 @@ func (e *Engine) crashRestart(i int, op *Op) {
 			u.EndT = e.nowMs()
 		}
 	}
+	urls := make([]string, 0, len(e.disks))
+	for u := range e.disks {
+		urls = append(urls, u)
+	}
+	sortStrings(urls)
+	npend := 0
+	for _, u := range urls {
+		npend += len(e.disks[u].pending)
+	}
 	if op.Kind == OpCrash {
 		// unsynced writes: each independently kept, lost or (if enabled) torn
 		kept, lost, torn := 0, 0, 0
-		var keep []pendingWrite
-		for _, p := range e.disk.pending {
-			switch x := e.wrng.IntN(10); {
-			case x < 5:
-				keep = append(keep, p)
-				kept++
-			case x < 8 || !op.Tear || p.rec.del || len(p.rec.data) == 0:
-				lost++
-			default:
-				cut := e.wrng.IntN(len(p.rec.data))
-				p.rec.data = p.rec.data[:cut]
-				keep = append(keep, p)
-				torn++
+		for _, url := range urls {
+			disk := e.disks[url]
+			var keep []pendingWrite
+			for _, p := range disk.pending {
+				switch x := e.wrng.IntN(10); {
+				case x < 5:
+					keep = append(keep, p)
+					kept++
+				case x < 8 || !op.Tear || p.rec.del || len(p.rec.data) == 0:
+					lost++
+				default:
+					cut := e.wrng.IntN(len(p.rec.data))
+					p.rec.data = p.rec.data[:cut]
+					keep = append(keep, p)
+					torn++
+				}
 			}
+			disk.pending = keep
+			disk.sync()
 		}
-		e.disk.pending = keep
-		e.disk.sync()
 		e.hist.FaultFired["crash"]++
+		if npend > 0 {
+			e.hist.FaultFired["crash-with-unsynced-writes"]++
+		}
 		e.hist.FaultFired["crash:write-lost"] += lost
 		e.hist.FaultFired["crash:write-torn"] += torn
 		e.hist.FaultFired["crash:write-kept"] += kept
-		e.ev("disk", "", fmt.Sprintf("after kill: kept=%d lost=%d torn=%d durable-keys=%d", kept, lost, torn, len(e.disk.durable)))
+		e.ev("disk", "", fmt.Sprintf("after kill: kept=%d lost=%d torn=%d", kept, lost, torn))
 	} else {
-		e.disk.sync()
+		for _, url := range urls {
+			e.disks[url].sync()
+		}
 		e.hist.FaultFired["stop"]++
 	}
 	// the old process image disappears
@@ -657,3 +681,73 @@ func (e *Engine) crashRestart(i int, op *Op) {
 
 //go:norace
 func (t *Task) markDead() { t.state = tsDead }
+
+// recordInlineStore notes a store call that completed inline (set-up, restart,
+// atomic sections, InlineStore plans).
+func (e *Engine) recordInlineStore(t *Task, c *StoreCall) {
+	id := -1
+	name := ""
+	if t != nil {
+		id = t.ID
+		name = t.Name
+	}
+	s := &StoreRec{Serial: -1, Task: id, Op: c.Op, Key: c.Key, Len: len(c.Data), TTLms: c.TTL.Milliseconds(), T: e.nowMs(), URL: c.URL}
+	if c.err != nil {
+		s.Err = c.err.Error()
+	}
+	s.OutLen = len(c.out)
+	s.name = name
+	// logged by the controller at the next observation, in a canonical order: calls
+	// made inside one atomic section (sync.Map iteration) have no reproducible order
+	e.inlineBuf = append(e.inlineBuf, s)
+}
+
+func (e *Engine) flushInlineStores() {
+	if len(e.inlineBuf) == 0 {
+		return
+	}
+	buf := e.inlineBuf
+	e.inlineBuf = nil
+	sort.SliceStable(buf, func(i, j int) bool {
+		if buf[i].Task != buf[j].Task {
+			return buf[i].Task < buf[j].Task
+		}
+		return buf[i].URL < buf[j].URL
+	})
+	for _, s := range buf {
+		s.CallSeq = e.ev("store-inline", s.name, fmt.Sprintf("%s %s %q len=%d ttl=%dms -> len=%d err=%q", s.URL, s.Op, s.Key, s.Len, s.TTLms, s.OutLen, s.Err))
+		s.DoneSeq = s.CallSeq
+		e.hist.Stores = append(e.hist.Stores, s)
+	}
+}
+
+// checkDiskAfterPurge: when no request of the key overlapped the purge and its delete
+// was not failed by the plan, the store of every covered cache must not hold the key.
+func (e *Engine) checkDiskAfterPurge(t *Task, m *MiscRec) {
+	e.flushInlineStores()
+	for _, r := range e.hist.Reqs {
+		if r.Key == m.Key && !r.Dead && (r.ReturnSeq < 0 || r.ReturnSeq > m.InvokeSeq) {
+			return
+		}
+	}
+	for _, s := range e.hist.Stores {
+		if s.Task == t.ID && s.Op == "delete" && s.Err != "" {
+			return
+		}
+	}
+	cfg := &e.plan.Configs[e.curCfg]
+	now := e.nowMs()
+	any := false
+	for _, c := range cfg.Caches {
+		if c.Store == "" || (m.Cache != "" && m.Cache != c.Name) {
+			continue
+		}
+		any = true
+		if d := e.disks[c.Store]; d != nil {
+			if rec, ok := d.lookup(m.Key); ok && (rec.expireMs == 0 || now < rec.expireMs) {
+				m.DiskHas = true
+			}
+		}
+	}
+	m.DiskChecked = any
+}
